@@ -158,7 +158,8 @@ def gen_limit_ops(o, tier, nmax=3):
     lims = sorted(o.sample(cands, k))
     ops = [["run", {"max_evaluations": lims[0]}]]
     for m in lims[1:]:
-        ops.append(["continue", {"max_evaluations": m}])
+        # one continuation in five goes through the second route the API documents: a new driver call handed the old container
+        ops.append(["restart" if o.random() < 0.2 else "continue", {"max_evaluations": m}])
     return ops
 
 
@@ -258,6 +259,9 @@ class C05(DimwiseCheck):
                 elif op[0] == "step":
                     ctx.probe("single_step_stop")
                     ret = sim.cont(tol=-1.0, max_evaluations=int(sim.sa.get_total_num_points()))
+                elif op[0] == "restart":
+                    ctx.probe("container_restart"); ctx.fault("container_restart")
+                    ret = sim.perform(tol=-1.0, max_evaluations=op[1]["max_evaluations"], reevaluate_at_end=reevaluate, refinement_container=sim.last_ret[0])
                 else:
                     ctx.probe("continued")
                     ret = sim.cont(tol=-1.0, max_evaluations=op[1]["max_evaluations"])
